@@ -3,8 +3,27 @@ import os, re, subprocess
 from concurrent.futures import ThreadPoolExecutor
 VERIF = os.path.dirname(os.path.dirname(os.path.abspath(__file__)))
 
+def snapshot(env):
+    """the rules as they are when the run starts, so that rule edits during a long regression run do not leak into it"""
+    cache = env.get('PDB_CACHE')
+    if not cache:
+        return VERIF
+    snap = os.path.join(cache, 'verif-snap')
+    if not os.path.exists(os.path.join(snap, '.done')):
+        import shutil
+        shutil.rmtree(snap, ignore_errors=True)
+        os.makedirs(os.path.join(snap, 'bin')); os.makedirs(os.path.join(snap, 'driver', 'target', 'release'))
+        shutil.copy2(os.path.join(VERIF, 'check'), snap)
+        shutil.copy2(os.path.join(VERIF, 'known_findings.txt'), snap)
+        shutil.copy2(os.path.join(VERIF, 'bin', 'extract_facts.sh'), os.path.join(snap, 'bin'))
+        shutil.copy2(os.path.join(VERIF, 'driver', 'target', 'release', 'pdb-facts'), os.path.join(snap, 'driver', 'target', 'release'))
+        shutil.copytree(os.path.join(VERIF, 'rules'), os.path.join(snap, 'rules'), ignore=shutil.ignore_patterns('__pycache__'))
+        open(os.path.join(snap, '.done'), 'w').close()
+    return snap
+
 def one(p, env):
-    r = subprocess.run([os.path.join(VERIF, 'check'), p], cwd=VERIF, env=env, stdout=subprocess.PIPE, stderr=subprocess.STDOUT, text=True)
+    root = snapshot(env)
+    r = subprocess.run([os.path.join(root, 'check'), p], cwd=root, env=env, stdout=subprocess.PIPE, stderr=subprocess.STDOUT, text=True)
     return p, r.returncode, r.stdout
 
 def run(props, env, workers=8):
